@@ -854,6 +854,11 @@ impl Rasn {
             ASN1Value::Boolean(b) => Ok(b.to_token_stream()),
             ASN1Value::Integer(i) => Ok(Literal::i128_unsuffixed(*i).to_token_stream()),
             ASN1Value::String(s) => Ok(s.to_token_stream()),
+            // a literal beyond the f64 range is read as infinity, which has no Rust literal
+            ASN1Value::Real(r) if !r.is_finite() => Err(error!(
+                Unidentified,
+                "REAL value is outside the range of f64"
+            )),
             ASN1Value::Real(r) => Ok(r.to_token_stream()),
             ASN1Value::BitStringNamedBits(_) => Err(GeneratorError {
                 top_level_declaration: None,
